@@ -183,8 +183,22 @@ namespace c16
     void run()
     {
       // ---------------------------------------------------------------- decode the rest of the case
-      op.kind = t.pick({3, 3, 1, 3, 2, 2, 2});
-      if(op.kind == OpTrialDeriv && c.excl("c16-trial-derivative")) op.kind = OpTestDeriv;
+      {
+        // operator kinds admissible for the pair (see the domain facts in c16_core.hpp), chosen by construction
+        const bool simplex0 = rm.simplex;
+        static const int w[OpCount] = {3, 3, 1, 3, 2, 2, 2};
+        std::vector<int> kinds; std::vector<int> ws;
+        for(int k = 0; k < OpCount; ++k)
+        {
+          const bool g_te = (k != OpIdentity && k != OpTrialDeriv), g_tr = (k != OpIdentity && k != OpTestDeriv);
+          if((g_te && !TeTag::has_grad) || (g_tr && !TrTag::has_grad)) continue;
+          if(k == OpLaplaceBeltrami && !(TeTag::parametric(simplex0) && TrTag::parametric(simplex0))) continue;
+          kinds.push_back(k); ws.push_back(w[k]);
+        }
+        int tot = 0; for(int x : ws) tot += x; int r = int(t.raw() % std::uint32_t(tot)); size_t sel = 0; while(r >= ws[sel]) { r -= ws[sel]; ++sel; }
+        op.kind = kinds[sel];
+        if(op.kind == OpTrialDeriv && c.excl("c16-trial-derivative")) op.kind = TeTag::has_grad ? (int)OpTestDeriv : (int)OpIdentity;
+      }
       op.a = t.range(0, dim - 1); op.b = t.range(0, dim - 1);
       if(op.kind < OpTrialDeriv) op.a = op.b = 0; if(op.kind == OpTrialDeriv || op.kind == OpTestDeriv) op.b = 0;
       { static const double as[] = {1.0, -1.0, 2.0, 0.5}; int ak = t.pick({4, 1, 1, 1, 2, 1}); alpha = ak < 4 ? DT(as[ak]) : (ak == 4 ? DT(t.real_nz(2)) : DT(0)); c.label(ak < 4 ? "alpha:simple" : (ak == 4 ? "alpha:generated" : "alpha:0")); }
@@ -216,42 +230,59 @@ namespace c16
       const bool grad_te = op.kind != OpIdentity && op.kind != OpTrialDeriv, grad_tr = op.kind != OpIdentity && op.kind != OpTestDeriv;
       c.nontrivial = (alpha != DT(0)) && !(grad_te && TeTag::p == 0) && !(grad_tr && TrTag::p == 0) && (te->get_num_dofs() * tr->get_num_dofs() > 1);
       c.announce();
-      switch(op.kind)
+      // (gradient operators are not even instantiated for pairs with a value-only space)
+      constexpr bool gte = TeTag::has_grad, gtr = TrTag::has_grad;
+      if(op.kind == OpIdentity) { Assembly::Common::IdentityOperator o; routes(o); }
+      else if(op.kind == OpTestDeriv) { if constexpr(gte) { Assembly::Common::TestDerivativeOperator o(op.a); routes(o); } }
+      else if(op.kind == OpTrialDeriv) { if constexpr(gtr) { Assembly::Common::TrialDerivativeOperator o(op.a); routes(o); } }
+      else if constexpr(gte && gtr)
       {
-      case OpIdentity: { Assembly::Common::IdentityOperator o; routes(o); break; }
-      case OpLaplace: { Assembly::Common::LaplaceOperator o; routes(o); break; }
-      case OpLaplaceBeltrami: { Assembly::Common::LaplaceBeltramiOperator o; routes(o); break; }
-      case OpTrialDeriv: { Assembly::Common::TrialDerivativeOperator o(op.a); routes(o); break; }
-      case OpTestDeriv: { Assembly::Common::TestDerivativeOperator o(op.a); routes(o); break; }
-      case OpDivDiv: { Assembly::Common::DivDivOperator o(op.a, op.b); routes(o); break; }
-      default: { Assembly::Common::DuDvOperator o(op.a, op.b); routes(o); break; }
+        if(op.kind == OpLaplace) { Assembly::Common::LaplaceOperator o; routes(o); }
+        else if(op.kind == OpLaplaceBeltrami) { Assembly::Common::LaplaceBeltramiOperator o; routes(o); }
+        else if(op.kind == OpDivDiv) { Assembly::Common::DivDivOperator o(op.a, op.b); routes(o); }
+        else { Assembly::Common::DuDvOperator o(op.a, op.b); routes(o); }
       }
     }
   };
 
-  /// pair catalogue for one shape
-  template<typename Shape_, typename DT, typename IT> void bilin_pairs(Tape& t, Ctx& c, const RawMesh& rm)
+  /// pair catalogue for one shape, split into two halves compiled in separate translation units (compile time)
+  static const char* const pair_names[] = {"lagrange1/lagrange1", "lagrange2/lagrange2", "lagrange2/lagrange1", "lagrange1/discontinuous0", "lagrange2/lagrange1:float",
+                                           "discontinuous1/lagrange2", "crorav_rantur/crorav_rantur", "crorav_rantur/discontinuous0", "lagrange3/lagrange3", "lagrange1/lagrange3"};
+  template<typename Shape_> void bilin_pairs_a(Tape& t, Ctx& c, const RawMesh& rm, int which)
   {
-    switch(t.pick({3, 3, 2, 2, 2, 2, 2, 2, 1, 2}))
+    typedef std::uint64_t I64;
+    switch(which)
     {
-    case 0: { BilinCase<Shape_, SL1, SL1, DT, IT> k(t, c, rm); k.run(); break; }
-    case 1: { BilinCase<Shape_, SL2, SL2, DT, IT> k(t, c, rm); k.run(); break; }
-    case 2: { BilinCase<Shape_, SL2, SL1, DT, IT> k(t, c, rm); k.run(); break; }
-    case 3: { BilinCase<Shape_, SL1, SD0, DT, IT> k(t, c, rm); k.run(); break; }
-    case 4: { BilinCase<Shape_, SD1, SL2, DT, IT> k(t, c, rm); k.run(); break; }
-    case 5: { BilinCase<Shape_, SCR, SCR, DT, IT> k(t, c, rm); k.run(); break; }
-    case 6: { BilinCase<Shape_, SCR, SD0, DT, IT> k(t, c, rm); k.run(); break; }
-    case 7: { BilinCase<Shape_, SL3, SL3, DT, IT> k(t, c, rm); k.run(); break; }
-    case 8: { BilinCase<Shape_, SD1, SD1, DT, IT> k(t, c, rm); k.run(); break; }
-    default: { BilinCase<Shape_, SL1, SL3, DT, IT> k(t, c, rm); k.run(); break; }
+    case 0: { BilinCase<Shape_, SL1, SL1, double, I64> k(t, c, rm); k.run(); break; }
+    case 1: { BilinCase<Shape_, SL2, SL2, double, I64> k(t, c, rm); k.run(); break; }
+    case 2: { BilinCase<Shape_, SL2, SL1, double, I64> k(t, c, rm); k.run(); break; }
+    case 3: { BilinCase<Shape_, SL1, SD0, double, I64> k(t, c, rm); k.run(); break; }
+    default: { BilinCase<Shape_, SL2, SL1, float, std::uint32_t> k(t, c, rm); k.run(); break; }
     }
   }
+  template<typename Shape_> void bilin_pairs_b(Tape& t, Ctx& c, const RawMesh& rm, int which)
+  {
+    typedef std::uint64_t I64;
+    switch(which)
+    {
+    case 5: { BilinCase<Shape_, SD1, SL2, double, I64> k(t, c, rm); k.run(); break; }
+    case 6: { BilinCase<Shape_, SCR, SCR, double, I64> k(t, c, rm); k.run(); break; }
+    case 7: { BilinCase<Shape_, SCR, SD0, double, I64> k(t, c, rm); k.run(); break; }
+    case 8: { BilinCase<Shape_, SL3, SL3, double, I64> k(t, c, rm); k.run(); break; }
+    default: { BilinCase<Shape_, SL1, SL3, double, I64> k(t, c, rm); k.run(); break; }
+    }
+  }
+  // explicit instantiations live in c16_bilin_<shape>a.cpp / c16_bilin_<shape>b.cpp
+  extern template void bilin_pairs_a<Shape::Hypercube<2>>(Tape&, Ctx&, const RawMesh&, int); extern template void bilin_pairs_b<Shape::Hypercube<2>>(Tape&, Ctx&, const RawMesh&, int);
+  extern template void bilin_pairs_a<Shape::Simplex<2>>(Tape&, Ctx&, const RawMesh&, int); extern template void bilin_pairs_b<Shape::Simplex<2>>(Tape&, Ctx&, const RawMesh&, int);
+  extern template void bilin_pairs_a<Shape::Hypercube<3>>(Tape&, Ctx&, const RawMesh&, int); extern template void bilin_pairs_b<Shape::Hypercube<3>>(Tape&, Ctx&, const RawMesh&, int);
+  extern template void bilin_pairs_a<Shape::Simplex<3>>(Tape&, Ctx&, const RawMesh&, int); extern template void bilin_pairs_b<Shape::Simplex<3>>(Tape&, Ctx&, const RawMesh&, int);
 
   template<typename Shape_, bool simplex_> void bilin_target(Tape& t, Ctx& c)
   {
     MeshOpts o; o.dim = Shape_::dimension; o.simplex = simplex_; o.max_n = (o.dim == 2 ? 4 : 2);
-    const int ty = t.pick({3, 1});
+    const int which = t.pick({3, 3, 2, 2, 1, 2, 2, 2, 2, 2});
     RawMesh rm = gen_mesh(t, o);
-    if(ty == 0) bilin_pairs<Shape_, double, std::uint64_t>(t, c, rm); else bilin_pairs<Shape_, float, std::uint32_t>(t, c, rm);
+    if(which < 5) bilin_pairs_a<Shape_>(t, c, rm, which); else bilin_pairs_b<Shape_>(t, c, rm, which);
   }
 } // namespace c16
